@@ -1,145 +1,201 @@
 (** Correspondence + property checker for C05 (marker supply and lifecycle).
 
-    A case is one history on one denom: the module parameters, the observation before the first
-    operation and, per operation, the operation together with what the real code showed afterwards:
-    accepted/rejected, the marker record (status, recorded supply, fixed flag) or its absence, the
-    bank's SupplyOf(denom) and the balance of every account of the universe (marker account =
-    ESCROW, the user accounts, the marker module's coin pool and the governance account).
+    A case is one history on a world of 2-3 denoms: the observation before the first operation and,
+    per operation, the operation together with what the real code showed afterwards:
+    accepted/rejected, the module parameters and, for EVERY denom of the world, the marker record
+    (status, recorded supply, fixed flag) or its absence, the bank's SupplyOf(denom) and the
+    balance of EVERY holder of the denom as enumerated by the bank itself (DenomOwners), so that
+    "supply = sum of balances" is evaluated over all holders, not over a list of accounts the
+    harness happens to know.  Addresses: [escrow d] = marker account of denom d, 1.. = users,
+    99 = marker module account, 100 = governance account, 5000.. = any other holder the bank
+    reported.
 
-    corr:*  the model [PV.Marker.Lifecycle] run on the same operations disagrees on an observable.
+    corr:*  the model [PV.Marker.MultiLifecycle] run on the same operations disagrees on an observable.
     prop:*  the property's clauses evaluated on the implementation's observations alone. *)
 From Coq Require Import ZArith NArith List String Bool.
-From PV Require Export Marker.Lifecycle Corr.CorrBase.
+From PV Require Export Marker.MultiLifecycle Corr.CorrBase.
 Import ListNotations.
 Open Scope string_scope.
 Open Scope list_scope.
 Open Scope Z_scope.
 
-Record obs := {
-  o_ok : bool;
-  o_mk : option (status * Z * bool);       (* status, recorded supply, SupplyFixed *)
-  o_supply : Z;
-  o_bals : list (addr * Z)
+Record dobs := {
+  d_mk : option (status * Z * bool);       (* status, recorded supply, SupplyFixed *)
+  d_supply : Z;
+  d_bals : list (addr * Z)                 (* every holder the bank lists for the denom, once each *)
 }.
 
-Definition obal (o : obs) (a : addr) : Z := get (o_bals o) a.
-Definition sum_over (accts : list addr) (o : obs) : Z :=
-  fold_right (fun a acc => obal o a + acc) 0 accts.
-Definition others (accts : list addr) : list addr := filter (fun a => negb (N.eqb a ESCROW)) accts.
+Record obs := {
+  o_ok : bool;
+  o_max : Z;                               (* params.MaxSupply *)
+  o_gov : bool;                            (* params.EnableGovernance *)
+  o_den : list (denom * dobs)
+}.
 
-Definition ost (o : obs) : option status :=
-  match o_mk o with Some (x, _, _) => Some x | None => None end.
+Definition no_dobs : dobs := {| d_mk := None; d_supply := 0; d_bals := [] |}.
+Fixpoint dget (l : list (denom * dobs)) (d : denom) : dobs :=
+  match l with
+  | [] => no_dobs
+  | (k, v) :: r => if N.eqb k d then v else dget r d
+  end.
+Definition oden (o : obs) (d : denom) : dobs := dget (o_den o) d.
+Definition dbal (x : dobs) (a : addr) : Z := get (d_bals x) a.
+Definition dst (x : dobs) : option status :=
+  match d_mk x with Some (s, _, _) => Some s | None => None end.
 
-(** *** The property on the implementation's observations *)
+(** Every address holding the denom before or after the step. *)
+Definition holders (p c : dobs) : list addr := map fst (d_bals p) ++ map fst (d_bals c).
+Definition others_of (d : denom) (l : list addr) : list addr := filter (fun a => negb (N.eqb a (escrow d))) l.
+
+(** *** The property on the implementation's observations, denom by denom *)
 
 (** active and fixed => bank supply = recorded supply, after every transaction *)
-Definition p_fixed_exact (o : obs) : bool :=
-  match o_mk o with
-  | Some (Active, sup, true) => o_supply o =? sup
+Definition p_fixed_exact (x : dobs) : bool :=
+  match d_mk x with
+  | Some (Active, sup, true) => d_supply x =? sup
   | _ => true
   end.
 
-(** bank supply = sum of the balances over the universe of holders, none negative *)
-Definition p_sum (accts : list addr) (o : obs) : bool :=
-  (o_supply o =? sum_over accts o) && forallb (fun a => 0 <=? obal o a) accts.
+(** bank supply = sum of the balances of ALL holders, none negative *)
+Definition p_sum (x : dobs) : bool :=
+  (d_supply x =? total (d_bals x)) && forallb (fun e => 0 <=? snd e) (d_bals x).
 
 (** status never backwards; a record disappears only at a block boundary and only when destroyed *)
-Definition p_status (prev : obs) (o : op) (cur : obs) : bool :=
-  match ost prev, ost cur with
-  | Some p, Some c => rank p <=? rank c
-  | Some p, None => status_eqb p Destroyed && (match o with OBeginBlock => true | _ => false end)
+Definition p_status (p : dobs) (o : mop) (c : dobs) : bool :=
+  match dst p, dst c with
+  | Some a, Some b => rank a <=? rank b
+  | Some a, None => status_eqb a Destroyed && (match o with MBeginBlock => true | _ => false end)
   | None, _ => true
   end.
 
-(** an accepted mint into an active marker adds exactly the amount and stays within the maximum *)
-Definition p_mint (maxs : Z) (prev : obs) (o : op) (cur : obs) : bool :=
-  match mint_amount o, ost prev with
-  | Some amt, Some Active =>
-      if o_ok cur then (o_supply cur <=? maxs) && (o_supply cur =? o_supply prev + amt) else true
+(** an accepted mint into an active marker adds exactly the amount and stays within the maximum
+    in force *)
+Definition p_mint (maxs : Z) (d : denom) (p : dobs) (o : mop) (ok : bool) (c : dobs) : bool :=
+  match mmint_amount o, dst p with
+  | Some (d', amt), Some Active =>
+      if N.eqb d' d && ok then (d_supply c <=? maxs) && (d_supply c =? d_supply p + amt) else true
   | _, _ => true
   end.
 
 (** whenever the supply went down, exactly that much left the marker's own account and no other
     balance moved *)
-Definition p_burn (accts : list addr) (prev cur : obs) : bool :=
-  if o_supply cur <? o_supply prev then
-    (obal cur ESCROW =? obal prev ESCROW - (o_supply prev - o_supply cur)) &&
-    forallb (fun a => obal cur a =? obal prev a) (others accts)
+Definition p_burn (d : denom) (p c : dobs) : bool :=
+  if d_supply c <? d_supply p then
+    (dbal c (escrow d) =? dbal p (escrow d) - (d_supply p - d_supply c)) &&
+    forallb (fun a => dbal c a =? dbal p a) (others_of d (holders p c))
   else true.
 
 (** destroyed - or cancelled by an administrator once finalized/active - only with nothing held
     outside the marker's own account *)
-Definition p_recall (accts : list addr) (prev : obs) (o : op) (cur : obs) : bool :=
-  let recalled := forallb (fun a => obal prev a =? 0) (others accts) in
-  match ost prev, ost cur with
-  | Some p, Some Destroyed =>
-      if status_eqb p Destroyed then true else recalled && (o_supply cur =? 0)
-  | Some p, Some Cancelled =>
-      match o with
-      | OCancel _ => if status_eqb p Finalized || status_eqb p Active then recalled else true
-      | _ => true
-      end
+Definition is_cancel_of (d : denom) (o : mop) : bool :=
+  match o with MOn d' (OCancel _) => N.eqb d' d | _ => false end.
+Definition p_recall (d : denom) (p : dobs) (o : mop) (c : dobs) : bool :=
+  let recalled := forallb (fun a => dbal p a =? 0) (others_of d (holders p p)) in
+  match dst p, dst c with
+  | Some a, Some Destroyed =>
+      if status_eqb a Destroyed then true else recalled && (d_supply c =? 0)
+  | Some a, Some Cancelled =>
+      if is_cancel_of d o && (status_eqb a Finalized || status_eqb a Active) then recalled else true
   | _, _ => true
   end.
 
-(** a rejected operation leaves everything as it was *)
-Definition obs_same (accts : list addr) (a b : obs) : bool :=
-  (o_supply a =? o_supply b) && forallb (fun x => obal a x =? obal b x) accts &&
-  match o_mk a, o_mk b with
-  | Some (s1, z1, f1), Some (s2, z2, f2) => status_eqb s1 s2 && (z1 =? z2) && Bool.eqb f1 f2
-  | None, None => true
-  | _, _ => false
-  end.
-
-Definition prop_step (accts : list addr) (maxs : Z) (prev : obs) (o : op) (cur : obs) : list string :=
-  tag (p_fixed_exact cur) "prop:active fixed-supply marker: bank supply differs from recorded supply" ++
-  tag (p_sum accts cur) "prop:bank supply is not the sum of balances" ++
-  tag (p_status prev o cur) "prop:status moved backwards or record vanished" ++
-  tag (p_mint maxs prev o cur) "prop:mint into active marker past the maximum or by a different amount" ++
-  tag (p_burn accts prev cur) "prop:supply decrease did not come out of the marker account only" ++
-  tag (p_recall accts prev o cur) "prop:destroyed/cancelled with coins outside the marker account" ++
-  tag (o_ok cur || obs_same accts prev cur) "prop:rejected operation changed state".
-
-(** *** Model against implementation *)
-Definition model_mk (s : state) : option (status * Z * bool) :=
-  match mk s with Some m => Some (st m, msupply m, fixed m) | None => None end.
-
-Definition mk_eqb (a b : option (status * Z * bool)) : bool :=
+Definition mk3_eqb (a b : option (status * Z * bool)) : bool :=
   match a, b with
   | Some (s1, z1, f1), Some (s2, z2, f2) => status_eqb s1 s2 && (z1 =? z2) && Bool.eqb f1 f2
   | None, None => true
   | _, _ => false
   end.
 
-Definition corr_step (accts : list addr) (s' : state) (ok : bool) (cur : obs) : list string :=
-  tag (Bool.eqb ok (o_ok cur)) "corr:accepted/rejected" ++
-  tag (mk_eqb (model_mk s') (o_mk cur)) "corr:marker record (status, supply, fixed)" ++
-  tag (supply s' =? o_supply cur) "corr:bank supply" ++
-  tag (forallb (fun a => get (bal s') a =? obal cur a) accts) "corr:balances".
+(** nothing about the denom changed *)
+Definition dobs_same (p c : dobs) : bool :=
+  (d_supply p =? d_supply c) && forallb (fun a => dbal p a =? dbal c a) (holders p c) &&
+  mk3_eqb (d_mk p) (d_mk c).
 
-Fixpoint check_hist (accts : list addr) (maxs : Z) (s : state) (prev : obs) (i : N)
-         (steps : list (op * obs)) : list string :=
+Definition at_denom (d : denom) (l : list string) : list string :=
+  map (fun t => (t ++ " [denom " ++ N_to_string d ++ "]")%string) l.
+
+Definition prop_denom (maxs : Z) (prev : obs) (o : mop) (cur : obs) (d : denom) : list string :=
+  let p := oden prev d in let c := oden cur d in
+  at_denom d (
+  tag (p_fixed_exact c) "prop:active fixed-supply marker: bank supply differs from recorded supply" ++
+  tag (p_sum c) "prop:bank supply is not the sum of balances" ++
+  tag (p_status p o c) "prop:status moved backwards or record vanished" ++
+  tag (p_mint maxs d p o (o_ok cur) c) "prop:mint into active marker past the maximum or by a different amount" ++
+  tag (p_burn d p c) "prop:supply decrease did not come out of the marker account only" ++
+  tag (p_recall d p o c) "prop:destroyed/cancelled with coins outside the marker account" ++
+  tag (o_ok cur || dobs_same p c) "prop:rejected operation changed state" ++
+  tag (match o with
+       | MBeginBlock => true
+       | _ => match touched o with
+              | Some e => N.eqb e d || dobs_same p c
+              | None => dobs_same p c
+              end
+       end) "prop:operation on one marker changed another denom's supply, balances or marker").
+
+Definition prop_step (denoms : list denom) (prev : obs) (o : mop) (cur : obs) : list string :=
+  flat_map (prop_denom (o_max prev) prev o cur) denoms.
+
+(** *** Model against implementation *)
+Definition model_mk (c : cell) : option (status * Z * bool) :=
+  match c_mk c with Some m => Some (st m, msupply m, fixed m) | None => None end.
+
+Definition corr_denom (W' : world) (cur : obs) (d : denom) : list string :=
+  let c := cells W' d in let x := oden cur d in
+  at_denom d (
+  tag (mk3_eqb (model_mk c) (d_mk x)) "corr:marker record (status, supply, fixed)" ++
+  tag (c_supply c =? d_supply x) "corr:bank supply" ++
+  tag (forallb (fun a => get (c_bal c) a =? dbal x a) (map fst (d_bals x) ++ map fst (c_bal c))) "corr:balances").
+
+Definition corr_step (denoms : list denom) (W' : world) (ok : bool) (cur : obs) : list string :=
+  tag (Bool.eqb ok (o_ok cur)) "corr:accepted/rejected" ++
+  tag ((w_max W' =? o_max cur) && Bool.eqb (w_gov W') (o_gov cur)) "corr:module parameters" ++
+  flat_map (corr_denom W' cur) denoms.
+
+(** What Theorem C05_supply_le_max_since_activation guarantees, tracked on the observations:
+    per denom, [Some b] while the marker is active, b = max(supply right after activation, every
+    MaxSupply in force since). *)
+Definition bound_next (prev cur : obs) (d : denom) (b : option Z) : option Z :=
+  match dst (oden cur d) with
+  | Some Active =>
+      match dst (oden prev d), b with
+      | Some Active, Some z => Some (Z.max z (o_max prev))
+      | _, _ => Some (d_supply (oden cur d))
+      end
+  | _ => None
+  end.
+Definition bound_ok (cur : obs) (d : denom) (b : option Z) : bool :=
+  match b with Some z => d_supply (oden cur d) <=? z | None => true end.
+
+Fixpoint check_hist (denoms : list denom) (W : world) (prev : obs) (bnd : list (option Z)) (i : N)
+         (steps : list (mop * obs)) : list string :=
   match steps with
   | [] => []
   | (o, cur) :: rest =>
-      let '(s', ok) := step s o in
-      match corr_step accts s' ok cur ++ prop_step accts maxs prev o cur with
-      | [] => check_hist accts maxs s' cur (N.succ i) rest
+      let '(W', ok) := mstep W o in
+      let bnd' := map (fun db => bound_next prev cur (fst db) (snd db)) (combine denoms bnd) in
+      match corr_step denoms W' ok cur ++ prop_step denoms prev o cur ++
+            tag (forallb (fun db => bound_ok cur (fst db) (snd db)) (combine denoms bnd'))
+                "corr:active supply above max(supply at activation, MaxSupply in force since)" with
+      | [] => check_hist denoms W' cur bnd' (N.succ i) rest
       | e => map (fun t => (t ++ " @step " ++ N_to_string i)%string) e
       end
   end.
 
 Inductive case :=
-| CHist (accts : list addr) (maxs : Z) (govp : bool) (o0 : obs) (steps : list (op * obs)).
+| CHist (denoms : list denom) (o0 : obs) (steps : list (mop * obs)).
+
+Definition cell_of_dobs (x : dobs) : cell :=
+  {| c_mk := None; c_bal := d_bals x; c_supply := d_supply x; c_gen := 0%N |}.
 
 Definition check (c : case) : list string :=
   match c with
-  | CHist accts maxs govp o0 steps =>
-      let s0 := {| mk := None; bal := o_bals o0; supply := o_supply o0; maxsupply := maxs;
-                   govparam := govp; gen := 0%N |} in
-      tag (match o_mk o0 with None => true | _ => false end) "corr:history does not start without a marker" ++
-      tag (p_sum accts o0) "prop:bank supply is not the sum of balances @start" ++
-      check_hist accts maxs s0 o0 0%N steps
+  | CHist denoms o0 steps =>
+      let W0 := {| dom := denoms; cells := fun d => cell_of_dobs (oden o0 d);
+                   w_max := o_max o0; w_gov := o_gov o0; grants := [] |} in
+      tag (forallb (fun d => match d_mk (oden o0 d) with None => true | _ => false end) denoms)
+          "corr:history does not start without markers" ++
+      tag (forallb (fun d => p_sum (oden o0 d)) denoms) "prop:bank supply is not the sum of balances @start" ++
+      check_hist denoms W0 o0 (map (fun _ => None) denoms) 0%N steps
   end.
 
 Definition check_all := check_list check.
